@@ -401,6 +401,11 @@ func (e *conditionExpander) emit(t antlr.Tree, subst map[string]string, depth in
 				text = replacement
 			}
 		}
+		if n.GetSymbol().GetTokenType() == QueryParserSTRING {
+			// the grammar allows a line break inside a string literal, the evaluator's
+			// lexer does not: hand it over as the equivalent escape
+			text = strings.ReplaceAll(text, "\n", "\\n")
+		}
 		e.write(text)
 		return
 	case *Predicate_invocationContext:
